@@ -11,6 +11,7 @@ import (
 	"os"
 	"path/filepath"
 	"sort"
+	"strings"
 	"sync"
 	"testing"
 	"testing/synctest"
@@ -37,7 +38,7 @@ type attempt struct {
 type fakeS3 struct {
 	mu       sync.Mutex
 	t0       time.Time
-	script   []string // per attempt: ok | fail | neterr | block (7.3s then ok) | hang (until the request context ends)
+	script   []string // per attempt: ok | fail | neterr | block (7.3s then ok) | slowNN (NN.3 s then ok) | hang (until the request context ends)
 	attempts []attempt
 	release  chan struct{}
 }
@@ -74,6 +75,19 @@ func (f *fakeS3) Do(r *http.Request) (*http.Response, error) {
 			done(false)
 			return nil, errors.New("released by harness")
 		case <-time.After(7*time.Second + 300*time.Millisecond):
+		}
+	case "slow75", "slow90", "slow130":
+		// an upload that takes longer than the one-minute spacing (and not a multiple of it)
+		var secs int
+		fmt.Sscanf(kind, "slow%d", &secs)
+		select {
+		case <-r.Context().Done():
+			done(false)
+			return nil, r.Context().Err()
+		case <-f.release:
+			done(false)
+			return nil, errors.New("released by harness")
+		case <-time.After(time.Duration(secs)*time.Second + 300*time.Millisecond):
 		}
 	case "hang":
 		select {
@@ -255,6 +269,11 @@ func runC17Bubble(dir string, c BackupCase, info *h.Info) *h.Violation {
 		prev = w
 	}
 	failed, racing := false, false
+	for _, k := range c.Script {
+		if strings.HasPrefix(k, "slow") {
+			info.Class("upload-longer-than-a-minute")
+		}
+	}
 	for _, a := range att {
 		if !a.ok {
 			failed = true
@@ -277,7 +296,7 @@ func runC17Bubble(dir string, c BackupCase, info *h.Info) *h.Violation {
 
 func genBackupCase(rt *rapid.T) BackupCase {
 	c := BackupCase{
-		Script:  rapid.SliceOfN(rapid.SampledFrom([]string{"ok", "ok", "ok", "fail", "neterr", "block", "hang"}), 0, 6).Draw(rt, "script"),
+		Script:  rapid.SliceOfN(rapid.SampledFrom([]string{"ok", "ok", "ok", "fail", "neterr", "block", "hang", "slow75", "slow90", "slow130"}), 0, 6).Draw(rt, "script"),
 		CancelS: rapid.SampledFrom([]int{0, 1, 30, 59, 61, 100, 125, 200, 400, 700, 1500}).Draw(rt, "cancel"),
 	}
 	ws := rapid.SliceOfN(rapid.IntRange(0, 7000), 0, 8).Draw(rt, "writes")
